@@ -10,6 +10,9 @@ from . import flowsem, mdict
 
 def run(check):
     flowsem.run_property(check, 'C02')
+    # executed corpus (c01_exec.py): a singly-bound name CPython reads was read from that binding -- not unused, listed by go-to-definition
+    from . import c01_exec, flowgraph
+    check.cov['evaluations'] = check.cov.get('evaluations', 0) + c01_exec.run_c02(check, flowgraph.load_supp())
     # the lookup chain itself (supp/merged_dict.py): the first table that has the name answers, for every chain length and
     # nesting (family MDict, lean/SuppModel/Props/MDict.lean); after the Den streams so that they draw the same random numbers
     mdict.run(check)
